@@ -27,7 +27,7 @@ from . import c05_tables
 
 THEOREMS = ["templates_python", "templates_numpy", "templates_cpp", "templates_numpy_item_shape", "templates_witness",
             "templates_reject_examples", "consts_all", "types_all", "ssa_wf", "assigned_once", "sem_preserve", "debug_equiv",
-            "const_name_complex_examples", "const_name_int_inj", "const_name_witness",
+            "const_name_complex_examples", "const_name_int_inj", "const_name_regression",
             "registry_inj_partial", "registry_inj_toplevel", "registry_inj_witness", "no_alias", "no_alias_graph",
             "auto_names_witness"]
 SEARCHED = [
